@@ -27,6 +27,21 @@ theorem liftSide_moved_le (nodeAt : Nat → Node) (splitsAt : Nat → Bool) (tar
     · have := liftSide_moved_le nodeAt splitsAt target n frag opened (moved + 1) false
       omega
 
+/-- a `liftSide` loop either opens a level or moves the outer position, at every level -/
+theorem liftSide_opened_moved (nodeAt : Nat → Node) (splitsAt : Nat → Bool) (target : Nat) :
+    ∀ (n : Nat) (frag : List Node) (opened moved : Nat) (sp : Bool),
+      (liftSide nodeAt splitsAt target n frag opened moved sp).2.1 +
+        (liftSide nodeAt splitsAt target n frag opened moved sp).2.2 = opened + moved + n
+  | 0, frag, opened, moved, sp => by simp [liftSide]
+  | n + 1, frag, opened, moved, sp => by
+    unfold liftSide
+    simp only
+    split
+    · have := liftSide_opened_moved nodeAt splitsAt target n [(nodeAt (target + n + 1)).withKids frag] (opened + 1) moved true
+      omega
+    · have := liftSide_opened_moved nodeAt splitsAt target n frag opened (moved + 1) false
+      omega
+
 /-- `from.before(depth + 1)` lies at or after the content start of the depth-`depth` ancestor -/
 theorem Resolved.start_le_before {doc : Node} {pos : Nat} {r : RPos} (R : Resolved doc pos r) (d s : Nat)
     (h : r.before (d + 1) = some s) : d ≤ r.depth ∧ r.start d ≤ s := by
@@ -68,7 +83,7 @@ theorem liftStepR_inside {doc : Node} {a b : Nat} {f t : RPos}
     ∃ F T gs ge sl i, st = .replaceAround F T gs ge sl i true ∧
       f.before (depth + 1) = some gs ∧ t.after (depth + 1) = some ge ∧
       sl.wf = true ∧ (i : Int) ≤ sl.size ∧ F ≤ gs ∧ gs ≤ ge ∧ ge ≤ T ∧
-      f.start target ≤ F ∧ T ≤ t.end_ target := by
+      f.start target ≤ F ∧ T ≤ t.end_ target ∧ sl.openStart + (gs - F) = depth - target := by
   unfold liftStepR at h
   cases hb : f.before (depth + 1) with
   | none => simp [hb] at h
@@ -94,24 +109,25 @@ theorem liftStepR_inside {doc : Node} {a b : Nat} {f t : RPos}
           obtain ⟨k, rfl⟩ : ∃ k, d = k + 1 := ⟨d - 1, by omega⟩
           obtain ⟨ty, at_, m, kids, e⟩ := resolve_node_elem ht k (by omega)
           rw [e]; rfl) .nil
+      have OM := liftSide_opened_moved f.node (fun d => decide (0 < f.index d)) target (depth - target) [] 0 0 false
       have ML := liftSide_moved_le f.node (fun d => decide (0 < f.index d)) target (depth - target) [] 0 0 false
       have MR := liftSide_moved_le t.node (fun d => decide (t.afterT (d + 1) < t.end_ d)) target
         (depth - target) [] 0 0 false
       generalize liftSide f.node (fun d => decide (0 < f.index d)) target (depth - target) [] 0 0 false = L
-        at h NL ML
+        at h NL ML OM
       generalize liftSide t.node (fun d => decide (t.afterT (d + 1) < t.end_ d)) target
         (depth - target) [] 0 0 false = R at h NR MR
       obtain ⟨before, os, ml⟩ := L
       obtain ⟨after, oe, mr⟩ := R
       simp only [Except.ok.injEq] at h
       subst h
-      simp only at NL NR ML MR
+      simp only at NL NR ML MR OM
       have nf := Rf.nestW target depth htg hdf
       have nt := Rt.nestW target depth htg hdt
-      refine ⟨hdf, hdt, _, _, _, _, _, _, rfl, rfl, rfl, nests_wf NL NR, ?_, ?_, ?_, ?_, ?_, ?_⟩
+      refine ⟨hdf, hdt, _, _, _, _, _, _, rfl, rfl, rfl, nests_wf NL NR, ?_, ?_, ?_, ?_, ?_, ?_, ?_⟩
       · rw [nests_size NL NR, NL.fsize]
         omega
-      all_goals omega
+      all_goals first | omega | (simp only []; omega)
 
 /-- the content `wrap` builds is at least as long as the wrapper list (every wrapper contributes at
     least its open token) -/
@@ -156,7 +172,7 @@ theorem wrapStepR_inside (S : Schema) {doc : Node} {a b : Nat} {f t : RPos}
     (h : wrapStepR S f t depth ws = .ok st) :
     ∃ s e sl, st = .replaceAround s e s e sl ws.length true ∧
       f.before (depth + 1) = some s ∧ t.after (depth + 1) = some e ∧
-      sl.wf = true ∧ (ws.length : Int) ≤ sl.size ∧ s ≤ e := by
+      sl.wf = true ∧ (ws.length : Int) ≤ sl.size ∧ s ≤ e ∧ sl.openStart = 0 := by
   unfold wrapStepR at h
   cases hc : wrapContent S ws with
   | error e => simp [hc] at h
@@ -172,7 +188,7 @@ theorem wrapStepR_inside (S : Schema) {doc : Node} {a b : Nat} {f t : RPos}
         have h1 := (resolve_resolved hf).before_le depth gs hb
         have h2 := (resolve_resolved ht).le_after depth ge hafter
         have := wrapContent_size_ge S ws content hc
-        refine ⟨gs, ge, _, rfl, rfl, rfl, ?_, ?_, by omega⟩
+        refine ⟨gs, ge, _, rfl, rfl, rfl, ?_, ?_, by omega, rfl⟩
         · simp [Slice.wf]
         · simp only [Slice.size]; omega
 
@@ -275,5 +291,93 @@ theorem splitStep_shape {doc : Node} {pos : Nat} (depth : Nat) (st : Step) (hdoc
       rw [hlen] at N
       refine ⟨_, rfl, nests_wf N N, rfl, rfl, ?_⟩
       rw [nests_size N N]; omega
+
+/-! ### replace-around steps: the level inside the window -/
+
+theorem balance_le_length : ∀ l : List Tok, balance l ≤ l.length
+  | [] => by simp
+  | x :: l => by
+    have := balance_le_length l
+    have hx : x.delta ≤ 1 := by cases x <;> simp [Tok.delta]
+    simp only [balance_cons, List.length_cons]
+    omega
+
+/-- going back `m` tokens lowers the nesting level by at most `m` -/
+theorem balance_take_sub (G : List Tok) (p m : Nat) :
+    balance (G.take p) - m ≤ balance (G.take (p - m)) := by
+  rcases Nat.lt_or_ge p m with h | h
+  · rw [show p - m = 0 by omega]
+    have := balance_le_length (G.take p)
+    simp only [List.take_zero, balance_nil, List.length_take] at *
+    omega
+  · have e : G.take p = G.take (p - m) ++ (G.drop (p - m)).take m := by
+      conv => lhs; rw [show p = (p - m) + m by omega, List.take_add]
+    have := balance_le_length ((G.drop (p - m)).take m)
+    rw [e, balance_append]
+    simp only [List.length_take] at this
+    omega
+
+/-- the nesting level in front of a node range of depth `d` is (at least) `d` -/
+theorem balance_take_before {doc : Node} {pos : Nat} {r : RPos} (h : doc.resolve pos = some r) (d s : Nat)
+    (hb : r.before (d + 1) = some s) : (d : Int) ≤ balance ((ftoks doc.kids).take s) := by
+  have R := resolve_resolved h
+  by_cases hd : d = r.depth
+  · subst hd
+    simp [RPos.before] at hb
+    rw [← hb, R.pos_eq, balance_take_pos h]; omega
+  · by_cases hle : d + 1 ≤ r.depth
+    · rw [R.before_eq (d + 1) (by omega) hle] at hb
+      simp only [Option.some.injEq] at hb
+      have := balance_take_sub (ftoks doc.kids) (r.start (d + 1)) 1
+      rw [balance_take_start h (d + 1) hle, hb] at this
+      omega
+    · simp [RPos.before, hd, hle] at hb
+
+/-- a splice keeps the total balance: the spliced-in tokens end at the level the old list has at `T` -/
+theorem splice_balance (G X : List Tok) (F T : Nat) (h0 : balance G = 0)
+    (h1 : balance (G.take F ++ X ++ G.drop T) = 0) :
+    balance (G.take F) + balance X = balance (G.take T) := by
+  have : balance (G.take T ++ G.drop T) = 0 := by rw [List.take_append_drop]; exact h0
+  simp only [balance_append] at h1 this
+  omega
+
+/-- the prefixes of `slice[:i] ++ gap ++ slice[i:]` for a gap whose prefixes never close more than
+    they opened and that is balanced: the level never drops by more than `openStart` -/
+theorem around_prefix_level (sl : Slice) (hwf : sl.wf = true) (i : Nat) (gap : List Tok)
+    (hg : ∀ m, 0 ≤ balance (gap.take m)) (hg0 : balance gap = 0) (n : Nat) :
+    -(sl.openStart : Int) ≤ balance ((sl.toks.take i ++ gap ++ sl.toks.drop i).take n) := by
+  rw [List.append_assoc, List.take_append, List.take_append, balance_append, balance_append, List.take_take]
+  rcases Nat.lt_or_ge (n - (sl.toks.take i).length) gap.length with h | h
+  · rw [show n - (sl.toks.take i).length - gap.length = 0 by omega]
+    have := sliceToks_balance_ge sl hwf (min n i)
+    have := hg (n - (sl.toks.take i).length)
+    simp only [List.take_zero, balance_nil]
+    omega
+  · rw [List.take_of_length_le h, hg0]
+    rcases Nat.lt_or_ge n (sl.toks.take i).length with h' | h'
+    · rw [show n - (sl.toks.take i).length - gap.length = 0 by omega]
+      have := sliceToks_balance_ge sl hwf (min n i)
+      simp only [List.take_zero, balance_nil]
+      omega
+    · -- the whole of `slice[:i]` is taken
+      have hl : (sl.toks.take i).length ≤ i := by simp; omega
+      have e1 : sl.toks.take (min n i) = sl.toks.take i := by
+        rcases Nat.lt_or_ge n i with h'' | h''
+        · rw [Nat.min_eq_left (by omega)]
+          have : sl.toks.length ≤ n := by simp at h'; omega
+          rw [List.take_of_length_le this, List.take_of_length_le (by omega)]
+        · rw [Nat.min_eq_right h'']
+      have e2 : balance (sl.toks.take i) + balance ((sl.toks.drop i).take (n - (sl.toks.take i).length - gap.length)) =
+          balance (sl.toks.take (i + (n - (sl.toks.take i).length - gap.length))) := by
+        rw [List.take_add, balance_append]
+      have := sliceToks_balance_ge sl hwf (i + (n - (sl.toks.take i).length - gap.length))
+      rw [e1]
+      omega
+
+theorem around_balance (sl : Slice) (i : Nat) (gap : List Tok) (hg0 : balance gap = 0) :
+    balance (sl.toks.take i ++ gap ++ sl.toks.drop i) = balance sl.toks := by
+  rw [balance_append, balance_append, hg0]
+  conv => rhs; rw [← List.take_append_drop i sl.toks, balance_append]
+  omega
 
 end PM
